@@ -597,33 +597,38 @@ def replay(pid, path):
 
 
 def setup():
+    """Builds everything the claimed checks need (offline). Unclaimed (in-progress) properties are
+    attempted too but their failure is not fatal."""
     t0 = time.time()
     os.makedirs(BUILD, exist_ok=True)
     props = all_props()
-    mods, drivers = [], []
-    for p in props:
-        r = load_registry(p)
-        mods += r["modules"]
-        drivers.append(r["driver"])
-    log("lake build (%d property modules, %d drivers)" % (len(mods), len(drivers)))
-    rc, out, dt = lake_build(mods + drivers, timeout=7200)
-    print(out[-3000:])
-    if rc != 0:
-        log("lake build FAILED")
-        return 1
-    exe, msg = build_extractor()
-    if exe is None and os.path.isdir(os.path.join(VERIF, "tools", "extract")):
-        print(msg)
-        return 1
-    for p in props:
-        r = load_registry(p)
-        hbin, hout, dt = build_harness(p, r)
-        log("harness %s: %s (%.1fs)" % (p, "ok" if hbin else "FAILED", dt))
-        if hbin is None:
-            print(hout[-3000:])
-            return 1
-    log("setup done in %.0fs" % (time.time() - t0))
-    return 0
+    claimed = [p for p in props if json.load(open(os.path.join(LEAN, "registry", p + ".json"))).get("claimed")]
+    rc_all = 0
+    for group, fatal in ((claimed, True), ([p for p in props if p not in claimed], False)):
+        if not group:
+            continue
+        mods, drivers = [], []
+        for p in group:
+            r = load_registry(p)
+            mods += r["modules"]
+            drivers.append(r["driver"])
+        log("lake build (%d property modules, %d drivers)%s" % (len(mods), len(drivers), "" if fatal else " [unclaimed, non-fatal]"))
+        rc, out, dt = lake_build(mods + drivers, timeout=7200)
+        print(out[-2000:])
+        if rc != 0:
+            log("lake build FAILED")
+            if fatal:
+                rc_all = 1
+        for p in group:
+            r = load_registry(p)
+            hbin, hout, dt = build_harness(p, r)
+            log("harness %s: %s (%.1fs)" % (p, "ok" if hbin else "FAILED", dt))
+            if hbin is None:
+                print(hout[-2000:])
+                if fatal:
+                    rc_all = 1
+    log("setup done in %.0fs, status %d" % (time.time() - t0, rc_all))
+    return rc_all
 
 
 def main(argv):
